@@ -1,5 +1,7 @@
 CONSTANTS
+  CommitSeqBeforeWrite = FALSE
   FreezeBeforeMetaFlush = FALSE
+  AtomicRound = TRUE
   Name = {"m1", "m2"}
   MaxEntries = 3
   MaxCrash = 2
